@@ -375,8 +375,12 @@ pub fn run_forked<F: FnOnce()>(enabled_views: u32, timeout_s: u32, body: F) -> C
                     libc::dup2(devnull, 2);
                 }
             }
-            body();
-            end_pass();
+            // nothing may unwind out of the child into the caller's frames (the
+            // caller is the worker's proptest loop): an escaped panic is a verdict
+            match std::panic::catch_unwind(std::panic::AssertUnwindSafe(body)) {
+                Ok(()) => end_pass(),
+                Err(e) => crate::interp::escaped_panic(e),
+            }
         }
         let mut status: libc::c_int = 0;
         loop {
